@@ -51,22 +51,22 @@ package openapi3
 //@   ensures result != nil
 //@ func (Content).Validate
 //@   modifies *
-//@   preserves @C04 Parameter.*, SerializationMethod.*, *bool
+//@   preserves @C04 Parameter.*, SerializationMethod.*, *bool, MediaType.*, map[string]*Encoding, Encoding.*, map[string]*HeaderRef, []string
 //@   defines (result == nil) <==> contentOK(content)
 //@ func (*SchemaRef).Validate
 //@   modifies *
-//@   preserves @C04 Parameter.*, SerializationMethod.*, *bool
+//@   preserves @C04 Parameter.*, SerializationMethod.*, *bool, MediaType.*, map[string]*Encoding, Encoding.*, map[string]*HeaderRef, []string
 //@   defines (result == nil) <==> schemaRefOK(x)
 //@ func validateExtensions
 //@   modifies *
-//@   preserves @C04 Parameter.*, SerializationMethod.*, *bool
+//@   preserves @C04 Parameter.*, SerializationMethod.*, *bool, MediaType.*, map[string]*Encoding, Encoding.*, map[string]*HeaderRef, []string
 //@   defines (result == nil) <==> extensionsOK(extensions)
 //@ func validateExampleValue
 //@   modifies *
-//@   preserves @C04 Parameter.*, SerializationMethod.*, *bool
+//@   preserves @C04 Parameter.*, SerializationMethod.*, *bool, MediaType.*, map[string]*Encoding, Encoding.*, map[string]*HeaderRef, []string
 //@ func (*ExampleRef).Validate
 //@   modifies *
-//@   preserves @C04 Parameter.*, SerializationMethod.*, *bool
+//@   preserves @C04 Parameter.*, SerializationMethod.*, *bool, MediaType.*, map[string]*Encoding, Encoding.*, map[string]*HeaderRef, []string
 
 //@ func (*Parameter).Validate
 //@   requires parameter != nil
@@ -132,7 +132,7 @@ package openapi3
 //@   defines (result == nil) <==> identOK(value)
 //@ func (*HeaderRef).Validate
 //@   modifies *
-//@   preserves @C04 []string, Encoding.*, map[string]*HeaderRef
+//@   preserves @C04 []string, Encoding.*, map[string]*HeaderRef, MediaType.*, map[string]*Encoding
 //@   defines (result == nil) <==> headerRefOK(x)
 //@ func (*Encoding).SerializationMethod
 //@   modifies nothing
@@ -143,5 +143,26 @@ package openapi3
 //@   loop 1 invariant forall k string :: old(has(encoding.Headers, k)) ==> keys(headers)[k]
 //@   loop 1 invariant forall k string :: keysPrefix(headers, #i)[k] ==> identOK(k) && headerRefOK(old(encoding.Headers[k]))
 //@   ensures [headers-validated] result == nil && encoding != nil ==> (forall k string :: old(has(encoding.Headers, k)) ==> identOK(k) && headerRefOK(old(encoding.Headers[k])))
+//@   option safety-tags C20
+//@   tag C04
+
+// ---- sorted key lists and the media type's children
+//@ func componentNames
+//@   modifies nothing
+//@   loop 0 invariant seenset() == keys(out) && fresh(out)
+//@   ensures [exactly-the-keys] forall k string :: keys(result)[k] <==> has(s, k)
+//@   ensures fresh(result)
+//@   option safety-tags C20
+//@   tag C04
+
+//@ spec encodingOK(e *Encoding) bool
+//@ extend func (*Encoding).Validate
+//@   preserves @C04 MediaType.*, map[string]*Encoding, []string
+//@   defines (result == nil) <==> encodingOK(encoding)
+//@ func (*MediaType).Validate
+//@   modifies *
+//@   loop 2 invariant forall k string :: keysPrefix(#xs, #i)[k] ==> encodingOK(old(mediaType.Encoding[k]))
+//@   loop 2 invariant forall k string :: old(has(mediaType.Encoding, k)) ==> keys(#xs)[k]
+//@   ensures [encodings-validated] result == nil && mediaType != nil ==> (forall k string :: old(has(mediaType.Encoding, k)) ==> encodingOK(old(mediaType.Encoding[k])))
 //@   option safety-tags C20
 //@   tag C04
